@@ -22,6 +22,7 @@ RULE = ('Exhaustive: all 1555 strings of length <= 4 over {a . 0 , ] }} in 7 emb
         'a container mixes numbers and strings; distinct by content hash.')
 RULE += " Also: strings made of JSON's own words and a trailing backslash, comment markers (/* */ // <!--), one string with 2 500 brackets; values in which one array / object is stored twice (shared, acyclic). Round 5: arrays of 255-1000 numbers, documents of more than 1 MiB with strings ending in a backslash, with and without indent."
 RULE += ' Round 7: one case in three first puts a value without a JSON form (non-finite number, the container itself) inside the container, lets jsonStringify fail on it (compact and indented), takes it out again and only then runs the round trip on the very same container.'
+RULE += ' Round 8: number-like tokens (-0, 1.0, 10.00, 1e5 ...) inside string values and keys, surrounded the way JSON surrounds numbers.'
 ASSUMPTIONS = [
     'json.loads (CPython) is the standard JSON parser used as the second, independent reader',
     'values contain only null, booleans, finite numbers, strings, arrays and string-keyed objects (the property\'s domain)',
